@@ -227,6 +227,8 @@ func checkC14(e *Env) {
 				zs = append(zs, plan.Step{N: 1}, plan.Step{N: 0}, plan.Step{N: 0})
 				send(plan.Op{Fn: "new", L: l, N: n, Src: &plan.Src{Data: hx(r.Bytes(48)), Steps: zs}}, "word-count-stuttering-source")
 				send(plan.Op{Fn: "new", L: l, N: n, Src: &plan.Src{Data: hx(r.Bytes(5))}}, "word-count-short-source")
+				// an endless source that never fills a request at once: 1, 5 or 31 bytes per read
+				send(plan.Op{Fn: "new", L: l, N: n, Src: &plan.Src{Data: hx(r.Bytes(64)), Cycle: true, Max: []int{1, 5, 31}[i%3]}}, "word-count-endless-fragmenting-source")
 			}
 			// a valid sentence frame of every word count with ONE hostile token: every token
 			// length 1..130 in runes for 1-, 2-, 3- and 4-byte runes and for invalid bytes
@@ -387,7 +389,7 @@ func checkC14(e *Env) {
 		"calls_inside_histories_and_under_concurrency":     histCalls + concCalls,
 		"default_source_calls_in_long_runs_of_one_process": longRuns,
 		"calls_in_runs_of_many_distinct_calls_of_one_kind": distinctRuns,
-		"rule":                        "cases are calls of every exported function and method with hostile arguments: Language values {MinInt64, MinInt32, -2^31-1, -10, -1, 0..9, 10, 11, 255, 256, MaxInt32, 2^32, MaxInt64, seeded random} for every function; entropy nil, every length 0..70 and up to the size cap; word counts -40..60 and the extremes of int with default, working, failing, stuttering ((0,nil) x32) and short sources; strings: empty, spaces, one huge token, up to 10^6 tokens, 24 list words with long tails, every shape of invalid UTF-8, NUL, long runs of combining marks, U+FDFA, Hangul, unassigned code points and non-characters, and seeded splices, up to 1 MiB (thorough 16 MiB), each sent to CheckMnemonic, IsMnemonicValid and MnemonicToSeed (as mnemonic, as passphrase, as both); each call runs in a child that announces it first, so a panic, a process death or a call that consumes more than 10 s + 8 s/MiB of CPU is attributed to it; non-trivial = every call; distinct by (function, shape, language)",
+		"rule":                        "cases are calls of every exported function and method with hostile arguments: Language values {MinInt64, MinInt32, -2^31-1, -10, -1, 0..9, 10, 11, 255, 256, MaxInt32, 2^32, MaxInt64, seeded random} for every function; entropy nil, every length 0..70 and up to the size cap; word counts -40..60 and the extremes of int with default, working, failing, stuttering ((0,nil) x32), short and endless fragmenting (1, 5 or 31 bytes per read) sources; strings: empty, spaces, one huge token, up to 10^6 tokens, 24 list words with long tails, every shape of invalid UTF-8, NUL, long runs of combining marks, U+FDFA, Hangul, unassigned code points and non-characters, and seeded splices, up to 1 MiB (thorough 16 MiB), each sent to CheckMnemonic, IsMnemonicValid and MnemonicToSeed (as mnemonic, as passphrase, as both); each call runs in a child that announces it first, so a panic, a process death or a call that consumes more than 10 s + 8 s/MiB of CPU is attributed to it; non-trivial = every call; distinct by (function, shape, language)",
 		"samples":                     smp.List(),
 		"calls_per_function":          perFn.Map(),
 		"language_values":             langsSeen.Len(),
